@@ -65,8 +65,24 @@ def enclosing_stmt(node):
     return n
 
 
+_wnn_cache = {}
+
+
 def walk_no_nested(node, include_self=True):
-    """Walk a function body without descending into nested defs/classes."""
+    """Walk a function body without descending into nested defs/classes
+    (memoised per root node: the trees are immutable during a run)."""
+    key = (id(node), include_self)
+    hit = _wnn_cache.get(key)
+    if hit is not None and hit[0] is node:
+        return hit[1]
+    out = list(_walk_no_nested(node, include_self))
+    if isinstance(node, (ast.FunctionDef, ast.AsyncFunctionDef, ast.For,
+                         ast.While, ast.If, ast.ClassDef)):
+        _wnn_cache[key] = (node, out)
+    return out
+
+
+def _walk_no_nested(node, include_self=True):
     stack = [node]
     first = True
     while stack:
@@ -499,6 +515,13 @@ class Repo:
     def mro(self, ci):
         """Package-internal linearisation (single inheritance in this repo,
         falls back to DFS)."""
+        c_ = self.__dict__.setdefault('_mro_cache', {})
+        if ci.full in c_:
+            return c_[ci.full]
+        c_[ci.full] = self._mro(ci)
+        return c_[ci.full]
+
+    def _mro(self, ci):
         out, seen = [], set()
 
         def rec(c):
@@ -544,6 +567,13 @@ class Repo:
         return None
 
     def subclasses(self, ci):
+        c_ = self.__dict__.setdefault('_sub_cache', {})
+        if ci.full in c_:
+            return c_[ci.full]
+        c_[ci.full] = self._subclasses(ci)
+        return c_[ci.full]
+
+    def _subclasses(self, ci):
         out = []
         for c in self.all_classes():
             if c is ci:
